@@ -353,7 +353,22 @@ func retErrKind(ret *ssa.Return) string {
 			return "maybe"
 		}
 	}
-	return valueErrKind(last)
+	k := valueErrKind(last)
+	if k == "maybe" {
+		// `if err != nil { return err }`: the returned value is known non-nil on this edge
+		fn := ret.Parent()
+		g := guardsWhere(fn, func(cond ssa.Value) (bool, bool, string) {
+			x, nonNilOnTrue, ok := engine.NilCheck(cond)
+			if ok && engine.Unwrap(x) == engine.Unwrap(last) {
+				return true, nonNilOnTrue, ""
+			}
+			return false, false, ""
+		})
+		if len(g) > 0 && engine.OnlyThroughPass(fn, ret.Block(), g) {
+			return "nonnil"
+		}
+	}
+	return k
 }
 
 func valueErrKind(v ssa.Value) string {
@@ -421,4 +436,126 @@ func sliceElem(t types.Type) types.Type {
 		return s.Elem()
 	}
 	return t
+}
+
+// ---------------------------------------------------------------- boolean implication
+
+// atomFn classifies a boolean SSA value: ok => it is an atom of interest, and the atom
+// holds when the value equals `whenTrue`.
+type atomFn func(v ssa.Value) (ok bool, whenTrue bool)
+
+// atomGuards lists Ifs whose condition is an atom; pass edge = atom holds.
+func atomGuards(fn *ssa.Function, atom atomFn) []engine.Guard {
+	var out []engine.Guard
+	for _, i := range engine.Ifs(fn) {
+		c, neg := stripNot(i.Cond)
+		if ok, wt := atom(c); ok {
+			out = append(out, engine.Guard{If: i, PassTrue: wt != neg})
+		}
+	}
+	return out
+}
+
+// truthImplies: whenever v evaluates to `want`, the atom holds. Sound for the shapes the Go
+// SSA builder emits for &&/||/! (phi of constants and sub-conditions); anything else is
+// "cannot show" (false).
+func truthImplies(fn *ssa.Function, v ssa.Value, want bool, atom atomFn, guards []engine.Guard, depth int) bool {
+	if depth > 8 {
+		return false
+	}
+	if ok, wt := atom(v); ok && wt == want {
+		return true
+	}
+	switch x := v.(type) {
+	case *ssa.UnOp:
+		if x.Op == token.NOT {
+			return truthImplies(fn, x.X, !want, atom, guards, depth+1)
+		}
+	case *ssa.Const:
+		if b, ok := engine.ConstBool(x); ok && b != want {
+			return true // this value never equals want
+		}
+	case *ssa.Phi:
+		for i, e := range x.Edges {
+			pred := x.Block().Preds[i]
+			if truthImplies(fn, e, want, atom, guards, depth+1) {
+				continue
+			}
+			if engine.OnlyThroughPass(fn, pred, guards) {
+				continue
+			}
+			// edge-level: pred ends with a guard whose pass edge is exactly pred -> phi block
+			okEdge := false
+			for _, g := range guards {
+				if g.If.Block() == pred {
+					pe := g.PassEdge()
+					fe := g.FailEdge()
+					if pred.Succs[pe.Succ] == x.Block() && pred.Succs[fe.Succ] != x.Block() {
+						okEdge = true
+					}
+				}
+			}
+			if !okEdge {
+				return false
+			}
+		}
+		return true
+	}
+	return false
+}
+
+// returnsImply: every return of fn whose (first) bool result can be `want` implies the atom.
+func returnsImply(fn *ssa.Function, want bool, atom atomFn) bool {
+	guards := atomGuards(fn, atom)
+	for _, ret := range engine.Returns(fn) {
+		if len(ret.Results) == 0 {
+			return false
+		}
+		if engine.OnlyThroughPass(fn, ret.Block(), guards) {
+			continue
+		}
+		if !truthImplies(fn, ret.Results[0], want, atom, guards, 0) {
+			return false
+		}
+	}
+	return true
+}
+
+// nonNilAtom builds an atom "value with access key K is non-nil".
+func nonNilAtom(match func(x ssa.Value) bool) atomFn {
+	return func(v ssa.Value) (bool, bool) {
+		x, nonNilOnTrue, ok := engine.NilCheck(v)
+		if !ok || !match(x) {
+			return false, false
+		}
+		return true, nonNilOnTrue
+	}
+}
+
+// backEdgesGuarded: every back edge into hdr is itself a pass edge of a guard or leaves a
+// block reachable only through a pass edge (no iteration completes without the guard).
+func backEdgesGuarded(fn *ssa.Function, hdr *ssa.BasicBlock, guards []engine.Guard) bool {
+	pass := map[engine.Edge]bool{}
+	for _, g := range guards {
+		pass[g.PassEdge()] = true
+	}
+	found := false
+	for _, pr := range hdr.Preds {
+		if !hdr.Dominates(pr) {
+			continue
+		}
+		found = true
+		for i, s := range pr.Succs {
+			if s != hdr {
+				continue
+			}
+			if pass[engine.Edge{From: pr, Succ: i}] {
+				continue
+			}
+			if !engine.OnlyThroughPass(fn, pr, guards) {
+				return false
+			}
+		}
+	}
+	return found
 }
